@@ -118,6 +118,10 @@ class HAPServerProtocol(asyncio.Protocol):
         """Remove the connection and close the transport."""
         if self.peername in self.connections:
             del self.connections[self.peername]
+        if self._event_timer:
+            self._event_timer.cancel()
+            self._event_timer = None
+        self._event_queue.clear()
         self.transport.write_eof()
         self.transport.close()
 
